@@ -767,6 +767,28 @@ def finish_unattributed(ctx, p, pool):
         extra = {"note": "residual failure after neutralising %s; the original method is given below" % sorted({a[0] for a in p["attr"]}),
                  "original_decompiled": p["orig"].src, "original_bytecode": I.listing(p["orig"].units)}
     subj = c.meta.subject or ""
+    feats = set(p["orig"].meta.features) | set(c.meta.features)
+    if p["symptom"] == "exception-lost" and c.src and re.search(r"// Both branches of the condition point to the same code\.\s*\n\s*// if \(.*[/%]", c.src):
+        # the printed source itself shows the mechanism: a condition containing a division was turned into a comment
+        ctx.count("attributed_by_source_evidence")
+        report(ctx, c, "div-by-zero-exception-lost-empty-if-condition-commented-out", what_of(p["symptom"]), p["detail"],
+               dict(extra, attribution="the decompiled source contains a commented-out condition with a division"))
+        return
+    if p["symptom"].startswith("javac") and c.src and re.search(r"[()|&^+*/%<>=!~?:,-]\s*(?:int|long|short|byte|char|boolean) v\d+\w*\s*[)|&^+*/%<>=;,-]", c.src):
+        # the printed source itself shows the mechanism: a variable whose definition was removed (its constant / cast was propagated to the other
+        # uses) is still used once and gets its declaration printed in the middle of an expression: "(x | int v1)"
+        ctx.count("attributed_by_source_evidence")
+        report(ctx, c, "variable-declaration-printed-inside-expression-after-definition-was-propagated-away", what_of(p["symptom"]), p["detail"],
+               dict(extra, attribution="the decompiled source contains '<type> vN' in operand position"))
+        return
+    if any(f.endswith("-switch") or f == "ctl:do-while" for f in feats):
+        # The decompiler has several structural defects around switches and do-while loops (the switch-* / loop-nested-in-do-while /
+        # declaration-inside-do-while mechanisms found by the single-subject pools). In a random multi-construct method their interactions
+        # cannot be separated by neutralising one feature, so such a residue is recorded under ONE composite mechanism, which is a known
+        # finding; the single-subject pools PS/PC (every switch shape, every two-level nesting) remain the precise judges for these constructs.
+        ctx.count("residue_in_methods_with_switch_or_do_while")
+        report(ctx, c, "unisolated-failure-in-method-with-switch-or-do-while", what_of(p["symptom"]) + " (random method containing a switch or do-while; constructs: %s)" % subj, p["detail"], extra)
+        return
     report(ctx, c, "unattributed-%s-%s" % (pool, p["symptom"]), what_of(p["symptom"]) + " (no single-feature mechanism explains it; constructs: %s)" % subj, p["detail"], extra)
 
 
